@@ -27,6 +27,11 @@ def quiet_progress_bars():
 
 def main():
     quiet_progress_bars()
+    if os.environ.get("XV_PARAMCOV"):
+        import atexit
+        from harness import paramcov
+        paramcov.install()
+        atexit.register(paramcov.dump)
     ap = argparse.ArgumentParser()
     ap.add_argument("prop")
     ap.add_argument("--tier", default=os.environ.get("VERIF_TIER", "quick"), choices=["quick", "thorough"])
